@@ -6,6 +6,9 @@ package analysis
 // read-only views of unexported state and thin wrappers around unexported functions.
 
 import (
+	"github.com/go-openapi/analysis/internal/flatten/operations"
+	"github.com/go-openapi/analysis/internal/flatten/replace"
+	"github.com/go-openapi/analysis/internal/flatten/sortref"
 	"github.com/go-openapi/spec"
 )
 
@@ -84,4 +87,77 @@ func (s *Spec) VerifDump() map[string]interface{} {
 		"produces": keys(s.produces),
 		"auth":     keys(s.authSchemes),
 	}
+}
+
+// VerifUniqifyName exposes uniqifyName.
+func VerifUniqifyName(definitions spec.Definitions, name string) (string, bool) {
+	return uniqifyName(definitions, name)
+}
+
+// VerifRemoveUnused runs the RemoveUnused phases (shared sections, then the definitions fixpoint) on a document.
+func VerifRemoveUnused(sw *spec.Swagger) {
+	opts := &FlattenOpts{Spec: New(sw), RemoveUnused: true}
+	opts.flattenContext = newContext()
+	removeUnusedShared(opts)
+	removeUnused(opts)
+}
+
+// VerifDepthFirst exposes sortref.DepthFirst on a set of keys.
+func VerifDepthFirst(keys []string) []string {
+	m := make(map[string]struct{}, len(keys))
+	for _, k := range keys {
+		m[k] = struct{}{}
+	}
+
+	return sortref.DepthFirst(m)
+}
+
+// VerifTopmostFirst exposes sortref.TopmostFirst.
+func VerifTopmostFirst(refs []string) []string {
+	cp := append([]string(nil), refs...)
+
+	return sortref.TopmostFirst(cp)
+}
+
+// VerifNamesFromKey exposes namesFromKey for a key, the tuple flags of the analyzed schema and an operations index
+// given as $ref-of-operation -> operation id.
+func VerifNamesFromKey(key string, isTuple, isTupleWithExtra bool, ops map[string]string) []string {
+	index := make(map[string]operations.OpRef, len(ops))
+	for ref, id := range ops {
+		index[ref] = operations.OpRef{ID: id}
+	}
+
+	return namesFromKey(sortref.KeyParts(key), &AnalyzedSchema{IsTuple: isTuple, IsTupleWithExtra: isTupleWithExtra}, index)
+}
+
+// VerifGatherOperations exposes operations.GatherOperations: name -> (method, path, $ref).
+func VerifGatherOperations(s *Spec) map[string][3]string {
+	out := make(map[string][3]string)
+	for nm, op := range operations.GatherOperations(s, nil) {
+		out[nm] = [3]string{op.Method, op.Path, op.Ref.String()}
+	}
+
+	return out
+}
+
+// VerifUpdateRef, VerifRewriteSchemaToRef, VerifUpdateRefWithSchema and VerifDeepestRef expose internal/flatten/replace.
+func VerifUpdateRef(sw *spec.Swagger, key string, ref spec.Ref) error {
+	return replace.UpdateRef(sw, key, ref)
+}
+
+func VerifRewriteSchemaToRef(sw *spec.Swagger, key string, ref spec.Ref) error {
+	return replace.RewriteSchemaToRef(sw, key, ref)
+}
+
+func VerifUpdateRefWithSchema(sw *spec.Swagger, key string, sch *spec.Schema) error {
+	return replace.UpdateRefWithSchema(sw, key, sch)
+}
+
+func VerifDeepestRef(sw *spec.Swagger, basePath string, ref spec.Ref) (string, *spec.Schema, []string, error) {
+	res, err := replace.DeepestRef(sw, &spec.ExpandOptions{RelativeBase: basePath}, ref)
+	if err != nil {
+		return "", nil, nil, err
+	}
+
+	return res.Ref.String(), res.Schema, res.Warnings, nil
 }
